@@ -268,6 +268,35 @@ def run(ck, P):
         detc += deciding
         if not deciding or not any("table_size" in c for c in deciding):
             okc = False
+    # a difference of two slot indices means something only modulo the table size: it must be reduced (`& mask`, `% size`) before it is
+    # compared — the unsigned difference of a cluster that wraps past the last slot is huge
+    def _unreduced(e, parent=None):
+        e0 = strip(e)
+        if e0 is None:
+            return []
+        out = []
+        if e0.get("k") == "bin" and e0.get("op") == "-" and cval(e0["l"]) is None and cval(e0["r"]) is None:
+            par = strip(parent) if parent is not None else None
+            reduced = par is not None and par.get("k") == "bin" and par.get("op") in ("&", "%") and \
+                "table_size" in S(par["r"] if strip(par["l"]) is e0 else par["l"])
+            if not reduced:
+                out.append(S(e0))
+        for k_ in ("l", "r", "e", "c", "a", "b"):
+            if isinstance(e0.get(k_), dict):
+                out += _unreduced(e0[k_], e0)
+        for a_ in e0.get("args", []) or []:
+            out += _unreduced(a_, e0)
+        return out
+    raw = []
+    for e in shifts:
+        for b in cdm.get(e.block.id, set()):
+            t_ = ce.blocks[b].term
+            if t_ and t_.get("cond") is not None and ("removed_index" in S(t_["cond"]) or "entry_index" in S(t_["cond"])):
+                raw += _unreduced(t_["cond"])
+    ck.ob("C05.5-GROW-PROBE", ce.site("index differences are reduced modulo the table size"), not raw,
+          "every difference of slot indices in the shift decision is masked with the table size before it is compared" if not raw else
+          "the shift decision compares the plain difference '%s': for a probe cluster that wraps past the last slot the unsigned difference is huge, the "
+          "entry is not shifted back and sits behind an empty slot — a live key is no longer found, removed or updated" % raw[0])
     ck.ob("C05.5-GROW-PROBE", ce.site("circular index comparison"), okc,
           "the shift decision compares slot indices modulo the table size: %s" % detc if okc else
           "the back-shift decision %s compares slot indices without the table size: for a probe cluster that wraps past the last slot the order is wrong — "
@@ -322,6 +351,16 @@ def run(ck, P):
     if okw:
         fr_ = X.facts(mi, rewinds[0])
         okw = any(a_.endswith("->key == key)") and p_ is False for (a_, p_) in (fr_ or ()))
+    # ... whenever the callback removed the entry — for the first slot of the table as for any other (stepping back from slot 0 and
+    # forward again is exactly how slot 0 gets re-examined)
+    if okw:
+        cdi = mi.control_deps(transitive=False).get(rewinds[0].block.id, set())
+        conds_ = [S(mi.blocks[b_].term["cond"]) for b_ in cdi if mi.blocks[b_].term and mi.blocks[b_].term.get("cond") is not None]
+        extra_ = [c_ for c_ in conds_ if "->key" not in c_]
+        ck.ob("C05.8-ITERATE-REWIND", mi.site("rewind whenever the entry was removed"), not extra_,
+              "the rewind depends on the removal test only (%s)" % conds_ if not extra_ else
+              "the rewind after a removal is additionally conditioned on '%s': when that fails (the first slot of the table) the entry that back-shift "
+              "deletion moved into the visited slot is skipped — it is never shown to the callback" % extra_[0])
     ck.ob("C05.8-ITERATE-REWIND", mi.site("rewind acts on the loop position"), okw,
           "the loop steps '%s' and, when the callback removed the current entry, steps the same variable back once" % (S(steps[0].lhs) if steps else "?") if okw else
           "the loop advances %s but the rewind after a removal decrements %s: a per-iteration copy is rewound, the position is not — the entry that back-shift "
